@@ -14,6 +14,7 @@ INVARIANT TypeOK
 INVARIANT NoOverlap
 INVARIANT NoServeAfterClose
 INVARIANT OneResponseHead
+INVARIANT NoStaleWrite
 INVARIANT AtMostOneDisconnect
 INVARIANT AtMostOneAccess
 INVARIANT QueueOneDisc
